@@ -42,23 +42,33 @@ Definition enum_has_sig (s : list N) : outcome bool := Ok (starts_with c_v s).
 (* ctx.buf[pos] = x *)
 Definition set_byte (pos x : N) (buf : list N) : list N := firstnN pos buf ++ [x] ++ skipnN (pos + 1) buf.
 
-(* variant_marshal: one match arm per case (after fix dec59e1: a case signature of more than 255 bytes is refused) *)
+(* variant_marshal: one match arm per case (after fix dec59e1: a case signature of more than 255 bytes is refused; after
+   fix ef1b771: a case signature the protocol forbids, e.g. nested too deeply, is refused) *)
 Definition derive_case_marshal (be : bool) (k : ecase) (p : epay) (c : mctx) : mres :=
   match k, p with
   | CSingle r, PSingle v =>
-      (* sig_str; if sig_str.len() > 255 { return Err(SignatureTooLong) }; util::write_signature(sig_str, buf); val.marshal(ctx) *)
+      (* sig_str; if sig_str.len() > 255 { return Err(SignatureTooLong) }; validate_signature(sig_str)?;
+         util::write_signature(sig_str, buf); val.marshal(ctx) *)
       if 255 <? len (sig_str_r r) then (c, false)
-      else marshal_t be v {| mbuf := write_signature (sig_str_r r) (mbuf c); mfds := mfds c |}
+      else if is_ok (validate_signature (sig_str_r r)) then
+        marshal_t be v {| mbuf := write_signature (sig_str_r r) (mbuf c); mfds := mfds c |}
+      else (c, false)
   | CFields _ rs, PFields vs =>
       (* let pos = buf.len(); push(0); push('('); each field's sig_str; push(')'); push(0);
          let sig_len = buf.len() - pos - 2;
          if sig_len > 255 { buf.truncate(pos); return Err(SignatureTooLong) }
-         buf[pos] = sig_len as u8; ctx.align_to(8); each field .marshal(ctx)? *)
+         buf[pos] = sig_len as u8;
+         let valid = from_utf8(&buf[pos + 1..pos + 1 + sig_len]).map(|sig| validate_signature(sig).is_ok()).unwrap_or(false);
+           (the bytes are sig_str output; the validator refuses every byte that is not a type character, so a failing
+            from_utf8 and a failing validation coincide)
+         if !valid { buf.truncate(pos); return Err(NestingTooDeep) }
+         ctx.align_to(8); each field .marshal(ctx)? *)
       let pos := len (mbuf c) in
       let b1 := mbuf c ++ [0] ++ [c_lpar] ++ flat_map sig_str_r rs ++ [c_rpar] ++ [0] in
       let sig_len := len b1 - pos - 2 in
       if 255 <? sig_len then ({| mbuf := firstnN pos b1; mfds := mfds c |}, false) else
       let b2 := set_byte pos (sig_len mod 256) b1 in
+      if negb (is_ok (validate_signature (slice b2 (pos + 1) sig_len))) then ({| mbuf := firstnN pos b2; mfds := mfds c |}, false) else
       derive_struct_marshal (map (marshal_t be) vs) {| mbuf := b2; mfds := mfds c |}
   | _, _ => (c, false)          (* not a value of the enum: cannot be written in Rust *)
   end.
@@ -71,12 +81,13 @@ Definition sig_macro_marshal (be : bool) (r : rty) (v : val) (c : mctx) : mres :
     marshal_t be v {| mbuf := write_signature (sig_str_r r) (mbuf c); mfds := mfds c |}
   else (c, false).
 
-(* dbus_variant_var_marshal, arm Self::$name(v): v.marshal_as_variant(ctx)?  (Marshal::marshal_as_variant);
-   Catchall as above *)
+(* dbus_variant_var_marshal, arm Self::$name(v): v.marshal_as_variant(ctx)?  (Marshal::marshal_as_variant: length test,
+   validate_signature (fix ef1b771), write_signature, marshal); Catchall as above *)
 Definition var_macro_marshal (be : bool) (r : rty) (v : val) (c : mctx) : mres :=
   let sg := sig_str_r r in
   if 255 <? len sg then (c, false)
-  else marshal_t be v {| mbuf := write_signature sg (mbuf c); mfds := mfds c |}.
+  else if is_ok (validate_signature sg) then marshal_t be v {| mbuf := write_signature sg (mbuf c); mfds := mfds c |}
+  else (c, false).
 
 (** ** unmarshal *)
 Inductive eres :=
